@@ -12,7 +12,9 @@ correspond(res) =
   (2) correspondence of the Coq model with the implementation by interval-arithmetic case lemmas on levy_exponent(-1j*s).real,
       cumulantN(t), process_drift(), omega, and on sequences of set_representation;
       wave 6: the generated COMPLEX code (Gen.GenC10Cx) against both parts of levy_exponent(u) for real float u (HEM, VG) and
-      against levy_exponent(-1j*s) (`_cx_cases`).
+      against levy_exponent(-1j*s) (`_cx_cases`);
+      seeded change C10_g: `_refused_conversions_oracle` (sequences on ONE triplet object with refused requests whose ValueError is
+      caught, state compared after every request) and `_refused_conversion_cases` (the same against the generated state transformer).
 """
 import copy
 import json
@@ -28,7 +30,7 @@ from levycases import INF, rlit, tol_lit, Case
 
 PROP = "C10"
 PROPERTY_FILE = "Properties/C10.v"
-GEN_DEPS = ["GenC10Triplet", "GenC10Hem", "GenC10Merton", "GenC10Vg", "GenC10Cgmy", "GenC10Bs", "GenC10Exp", "GenC10Jump", "GenC10Cx", "GenC09Hem", "GenC09Vg"]
+GEN_DEPS = ["GenC10Triplet", "GenC10Hem", "GenC10Merton", "GenC10Vg", "GenC10Cgmy", "GenC10Bs", "GenC10Exp", "GenC10Jump", "GenC10Cx", "GenC10SetRep", "GenC09Hem", "GenC09Vg"]
 RULE = ("oracle cases: (model, parameters, argument / order / route) for HEM, Merton, VG, CGMY (y<0, y=0, 0<y<1, y=1, 1<y<2) and "
         "Black-Scholes; arguments s inside the strip of the exponent and real u; cumulant orders 1,2,4(,6); routes cf / direct / ctmc; "
         "random sequences of 1-5 representation changes; non-trivial = non-zero argument / non-empty sequence; "
@@ -36,7 +38,10 @@ RULE = ("oracle cases: (model, parameters, argument / order / route) for HEM, Me
         "(chosen uniforms, both branches and u == p, v = 0 and v next to 1) and Merton (replayed stream), process_drift / deterministic_path "
         "of the non-exponential models, cached constants after __init__ and after setattr + initialisation(), the closed-form VG "
         "Levy-Khintchine integral at the rebuilt model's constants; wave 6: Re and Im of levy_exponent(u) at real float u (negative, zero, "
-        "positive) and of levy_exponent(-1j*s) for HEM and VG against the generated complex code levy_exponent_c / hem_pj_c / vg_pj_c")
+        "positive) and of levy_exponent(-1j*s) for HEM and VG against the generated complex code levy_exponent_c / hem_pj_c / vg_pj_c; "
+        "set_representation sequences of 2-7 requests on one triplet object with at least one REFUSED request (ZERO for infinite variation, "
+        "ValueError caught) followed by further requests, dyadic stubs and the models' own triplets (CGMY 1 <= y < 2 in CENTER), state "
+        "(raised, a, representation) after every request; non-trivial = at least one refused request so far")
 MODELLED = [
     "LevyModel.levy_exponent is regenerated over the complex-pair domain C = R * R (Gen.GenC10Cx.levy_exponent_c, plug-in "
     "harness/py2coq_c10cx.py: float sub-expressions stay real, promotion with RtoC where Python promotes, 1j = Ci, z**2 = Cpow_nat, numpy's "
@@ -45,6 +50,12 @@ MODELLED = [
     "the generated code at x = -1j*s for HEM and VG (C10_kappa_is_generated_exponent); for Merton / CGMY kappa stays a hand model tied by "
     "cases, and their complex arguments are checked by the oracle only. Complex DIVISION is the field operation of C (CPython uses "
     "Smith's algorithm: same value over the reals, different rounding); float rounding is outside the model (stated tolerance)",
+    "LevyTriplet.set_representation is ALSO regenerated as a state transformer with exceptions (Gen.GenC10SetRep.set_representation_gen: "
+    "(raised?, (a, representation)); plug-in harness/py2coq_c10set.py executes the attribute assignments in source order, resolves "
+    "self._drift_mapping[representation]() through the dict literal of __init__, and translates the exception paths of the four "
+    "conversions to booleans *_raises); any other shape of the method (augmented assignment, another callee, else-branch) is refused = "
+    "broken obligation; the hand model set_representation is proved equal to it on admissible requests; exceptions other than the "
+    "modelled ValueError / NotImplementedError / KeyError (e.g. raised inside nu.integrate_against_x) are outside the model",
     "LevyTriplet.set_representation (attribute mutation), omega, log_characteristic_function(t,-1j), deterministic_path, the "
     "Markov-chain drift: hand models in Model/LevyExponent.v tied by case lemmas / oracle",
     "scipy.special.gamma is an opaque function (Section variable Gamma); c*gamma(-y) enters the CGMY exponent as data",
@@ -70,7 +81,8 @@ ASSUMPTIONS = ["parameters in their declared domain; eta1 > 1 for the exponentia
                "direct route: np.random.random is uniform on [0,1), np.random.normal(loc, scale) = loc + scale * standard normal, draws independent; "
                "given that, HEM's jump_increment has law nu / intensity by C10_hem_jump_inverse_cdf; Merton: oracle `_jump_law`"]
 THEOREM_NOTES = {
-    "count": "30 statements (5 of them named _algebra, 3 named _partial); wave 6 added C10_hem_char_exponent, C10_vg_char_exponent_closed_form_partial, C10_vg_char_exponent_re_partial, "
+    "count": "33 statements (5 of them named _algebra, 3 named _partial); after seeded change C10_g: C10_refused_conversion_leaves_state, "
+             "C10_generated_set_representation_is_model, C10_conversions_with_refused_requests, example C10_refused_nonvacuous; wave 6 added C10_hem_char_exponent, C10_vg_char_exponent_closed_form_partial, C10_vg_char_exponent_re_partial, "
              "C10_kappa_is_generated_exponent and the example C10_cx_nonvacuous; before: 6 conversions (4 positive under the guard valid_rep, the modelled ValueError, the need-for-the-guard witness), "
              "5 named _algebra (true by construction / conversion algebra / Merton mean rate), 3 direct-route identities on generated drifts, "
              "4 cumulant theorems (orders 1 and 2 only), C10_hem_exponent, C10_vg_exponent (Levy-Khintchine clause for two families), "
@@ -94,6 +106,16 @@ THEOREM_NOTES = {
         "returned by random() (ln 0)",
     "C10_after_initialisation": "the re-derived constants are syntactically the __init__ ones (both py2coq translations, proofs by reflexivity): "
         "the content is the tie -- a change of initialisation() alone (stale or different formula) breaks the proof or the reinit cases",
+    "C10_refused_conversion_leaves_state": "for ALL real arguments (a, rep, target; even numbers that code no representation): if the generated "
+        "set_representation_gen reports a raise, the state it returns is the input state -- i.e. in the source every statement that can raise "
+        "precedes every attribute assignment; a rewrite that assigns self.a before a raising call either is refused by the emitter or breaks this proof",
+    "C10_generated_set_representation_is_model": "current representation admissible: an admissible request never raises and yields exactly the "
+        "hand model set_representation (so every C10_conversions_* theorem is about the generated method); a non-admissible request (ZERO, "
+        "infinite variation) raises with the state unchanged; a triplet CONSTRUCTED in ZERO with infinite variation is outside (constructor does not check)",
+    "C10_conversions_with_refused_requests": "run_gen = requests applied one after the other on one object, exceptions caught by the caller: for every "
+        "list of requests rs (refused ones included) the state is the hand model on filter valid_repb rs; an admissible request after rs gives what it "
+        "gives on the original triplet; asking for the original representation restores (a, representation); the canonical drift (hence center "
+        "drift = first cumulant of the triplet) is unchanged. run_gen_state (Proofs) gives the closed form used by the case lemmas",
     "C10_conversions_*": "every measure (first-moment function m1, finite-variation flag fv), every triplet, every sequence of ADMISSIBLE "
         "representations: valid_rep fv r := fv = true or r <> ZERO (the code raises ValueError for ZERO with infinite variation, fix a05eb0c); "
         "m1 is a total function: infinite first moments are outside the model (all shipped models have finite tail moments)",
@@ -494,6 +516,107 @@ def _conversions_oracle(res, rng):
             res.violation("set_representation is path dependent or not reversible", rep)
 
 
+# ------------------------------------------------------------------------------------------------ refused conversions (seed C10_g)
+def _ref_step(fv, i11, tails, a, rep, target):
+    """reference semantics of ONE request on the state (a, rep): (raised, a', rep'); exact on Fractions"""
+    from rpylib.model.levymodel.levymodel import LevyRepresentation as LR
+    if target == rep:
+        return False, a, rep
+    if not fv and LR.ZERO in (target, rep):
+        return True, a, rep                      # refused: ValueError, state unchanged
+    def to_can(r, x):
+        return x + i11 if r == LR.ZERO or (r == LR.TILDE and fv) else (x - tails if r == LR.CENTER else x)
+    def of_can(r, c):
+        return c - i11 if r == LR.ZERO or (r == LR.TILDE and fv) else (c + tails if r == LR.CENTER else c)
+    return False, of_can(target, to_can(rep, a)), target
+
+
+def _center_of(fv, i11, tails, a, rep):
+    """center drift (= first cumulant per unit time of the triplet) read off a state"""
+    from rpylib.model.levymodel.levymodel import LevyRepresentation as LR
+    c = a + i11 if rep == LR.ZERO or (rep == LR.TILDE and fv) else (a - tails if rep == LR.CENTER else a)
+    return c + tails
+
+
+def _stepwise(triplet, seq):
+    """runs the requests on ONE triplet object, catching ValueError; [(raised, a, representation)] after every request"""
+    out = []
+    for r_ in seq:
+        try:
+            triplet.set_representation(r_)
+            raised = False
+        except ValueError:
+            raised = True
+        out.append((raised, triplet.a, triplet.representation))
+    return out
+
+
+def _refused_sequence(rng, fv, n):
+    from rpylib.model.levymodel.levymodel import LevyRepresentation as LR
+    reps = [LR.ZERO, LR.CENTER, LR.ONEONE, LR.TILDE]
+    seq = [rng.choice(reps) for _ in range(n)]
+    if not fv and LR.ZERO not in seq[:-1]:
+        seq[rng.randrange(0, max(1, n - 1))] = LR.ZERO       # at least one refused probe that is followed by further requests
+    return seq
+
+
+def _refused_conversions_oracle(res, rng):
+    """conversion SEQUENCES on one triplet object that include REFUSED requests (ZERO for infinite variation: ValueError caught by the
+    caller) followed by further requests: after EVERY request (a, representation) is what the reference semantics gives -- a refused
+    request changes nothing --, the center drift (first cumulant of the triplet) never moves, and for the real models it stays
+    cumulant1(1).  Dyadic stub measures (exact comparison) and the models' own triplets (CGMY 1 <= y < 2 in CENTER included)."""
+    from rpylib.model.levymodel.levymodel import LevyTriplet, LevyRepresentation as LR
+    jobs = []
+    for _ in range(_cfg(res)["seqs"]):
+        fv = rng.random() < 0.35
+        nu = StubMeasure(_dy(rng), _dy(rng), _dy(rng), fv)
+        r0 = rng.choice([LR.CENTER, LR.ONEONE, LR.TILDE] + ([LR.ZERO] if fv else []))
+        a0 = _dy(rng)
+        jobs.append(("dyadic", None, LevyTriplet(sigma=0.0, nu=nu, a=a0, representation=r0), Fraction(nu.v[(-1, 1)]),
+                     Fraction(nu.v[(-INF, -1)]) + Fraction(nu.v[(1, INF)]), fv, None, 0.0))
+    extra = [("cgmy", dict(c=0.8, g=6.0, m=4.5, y=1.3)), ("cgmy", dict(c=1.0, g=4.0, m=6.0, y=1.0)), ("cgmy", L.cgmy_params(rng, y=L.rnd(rng, 1.05, 1.9)))]
+    for kind, params in extra + L.model_sets(rng, 1):
+        model, nu = L.build(kind, params)
+        fv = bool(nu.jump_of_finite_variation())
+        i11 = float(nu.integrate_against_x(-1, 1)) if fv else 0.0   # never used by an admissible conversion of an infinite-variation measure
+        tails = float(nu.integrate_against_x(-INF, -1)) + float(nu.integrate_against_x(1, INF))
+        c1 = float(model.cumulant.cumulant1(1.0)) if nu.finite_first_moment() else None
+        jobs.append((kind, params, model.levy_triplet, i11, tails, fv, c1, 1e-11))
+    for src, params, t, i11, tails, fv, c1, tol in jobs:
+        exact = src == "dyadic"
+        a, rep = (Fraction(t.a) if exact else float(t.a)), t.representation
+        a0, r0 = a, rep
+        center0 = _center_of(fv, i11, tails, a, rep)
+        seq = _refused_sequence(rng, fv, rng.randrange(2, 8))
+        got = _stepwise(t, seq)
+        n_ref = 0
+        res.bump("refused-sequence measure", "finite variation" if fv else "infinite variation")
+        for k, (r_, (raised, ga, grep)) in enumerate(zip(seq, got)):
+            want_raise, a, rep = _ref_step(fv, i11, tails, a, rep, r_)
+            n_ref += want_raise
+            res.count(("conv-refused", src, json.dumps(params, sort_keys=True), float(a0), r0.name, tuple(x.name for x in seq[:k + 1]), fv),
+                      nontrivial=n_ref > 0, kind=f"oracle set_representation sequences with refused requests ({'dyadic stub' if exact else 'model triplet'})")
+            ga_ = Fraction(ga) if exact else float(ga)
+            center = _center_of(fv, i11, tails, ga_, grep)
+            scale = max(1.0, abs(float(a)), abs(float(tails)))
+            bad = []
+            if raised != want_raise:
+                bad.append("raises" if raised else "does not raise")
+            if grep != rep or (ga_ != a if exact else abs(ga_ - a) > tol * scale):
+                bad.append("state (a, representation) differs from the conversion semantics" + (" (a refused request must change nothing)" if want_raise else ""))
+            if (center != center0) if exact else abs(center - center0) > tol * scale:
+                bad.append("the center drift (first cumulant of the triplet) moved")
+            if c1 is not None and abs(center - c1) > 1e-9 * max(1.0, abs(c1)):
+                bad.append("the center drift of the triplet is no longer cumulant1(1)")
+            if bad:
+                res.violation("set_representation sequence with refused (caught) requests: after request #%d (%s): %s" % (k + 1, r_.name, "; ".join(bad)),
+                              dict(kind="conversion-refused", source=src, params=params, a=float(a0), rep=r0.name, seq=[x.name for x in seq], step=k + 1,
+                                   fv=fv, I11=float(i11), tails=float(tails), got=[bool(raised), float(ga), grep.name],
+                                   expected=[bool(want_raise), float(a), rep.name], cumulant1=c1))
+                break
+        res.bump("refused requests per sequence", n_ref)
+
+
 def _truncated_conversions_oracle(res, rng):
     """representation changes of a TRUNCATED triplet (what MarkovChainProcess does before simulating) against the Levy-Khintchine
     meaning of each representation, with the moments int_{-1}^{1} x nu_T and int_{|x|>1} x nu_T computed independently by mpmath
@@ -672,7 +795,7 @@ HEADER = L.HEADER_COMMON + """From Coq Require Import List.
 Import ListNotations.
 From RV Require Import Base.RB Gen.GenC10Triplet Gen.GenC10Hem Gen.GenC10Merton Gen.GenC10Vg Gen.GenC10Cgmy Gen.GenC10Bs Gen.GenC10Exp
   Gen.GenC10Jump Model.LevyExponent Proofs.C10_Triplet Proofs.C10_Exponent Proofs.C10_VgLK
-  Base.CxPair Gen.GenC10Cx Model.LevyExponentCx Proofs.C10_HemCx Proofs.C10_VgCx Proofs.C10_CxAxis.
+  Base.CxPair Gen.GenC10Cx Model.LevyExponentCx Proofs.C10_HemCx Proofs.C10_VgCx Proofs.C10_CxAxis Gen.GenC10SetRep Proofs.C10_SetRepGen.
 """
 
 I80 = "interval with (i_prec 80)."
@@ -1047,10 +1170,52 @@ def _conversion_cases(res, rng, per_group):
     return cases
 
 
+def _refused_conversion_cases(res, rng, per_group):
+    """wave 6 (seed C10_g): sequences with refused requests on the real LevyTriplet against run_gen over the GENERATED
+    set_representation_gen (state after the whole sequence: a and representation), and the raised flag + unchanged state of one
+    request of the sequence against set_representation_gen directly"""
+    from rpylib.model.levymodel.levymodel import LevyTriplet, LevyRepresentation as LR
+    cases = []
+    V = "(unfold valid_rep; cbn [t_rep]; first [left; reflexivity | right; discriminate])"
+    for k in range(2 * per_group):
+        fv = rng.random() < 0.3
+        nu = StubMeasure(_dy(rng), _dy(rng), _dy(rng), fv)
+        a0 = _dy(rng)
+        r0 = rng.choice([LR.CENTER, LR.ONEONE, LR.TILDE] + ([LR.ZERO] if fv else []))
+        seq = _refused_sequence(rng, fv, rng.randrange(2, 6))
+        t = LevyTriplet(sigma=0.0, nu=nu, a=a0, representation=r0)
+        got = _stepwise(t, seq)
+        i11, tl_, tr_ = nu.v[(-1, 1)], nu.v[(-INF, -1)], nu.v[(1, INF)]
+        fvs = "true" if fv else "false"
+        seq_l = "[" + "; ".join(REPN[x.value] for x in seq) + "]"
+        # one request of the sequence, evaluated on the state the implementation was in: the first refused one if any
+        j = next((i for i, g in enumerate(got) if g[0]), 0)
+        pa, pr = (a0, r0) if j == 0 else (float(got[j - 1][1]), got[j - 1][2])
+        raised, ja, jr = got[j]
+        hyp = f"forall m1 : R -> R -> R, m1 (-1) 1 = {rlit(i11)} -> m1 (- INFV) (-1) = {rlit(tl_)} -> m1 1 INFV = {rlit(tr_)} -> "
+        tpl = f"(mkTriplet {rlit(pa)} {REPN[pr.value]})"
+        stmt = (hyp + f"(fst (run_gen INFV m1 {fvs} {seq_l} (state_of (mkTriplet {rlit(a0)} {REPN[r0.value]}))) = {rlit(float(t.a))} /\\ "
+                f"snd (run_gen INFV m1 {fvs} {seq_l} (state_of (mkTriplet {rlit(a0)} {REPN[r0.value]}))) = rep_code {REPN[t.representation.value]}) /\\ "
+                f"(fst (set_representation_gen INFV m1 {fvs} (t_a {tpl}) (rep_code (t_rep {tpl})) (rep_code {REPN[seq[j].value]})) = {'true' if raised else 'false'} /\\ "
+                f"fst (snd (set_representation_gen INFV m1 {fvs} (t_a {tpl}) (rep_code (t_rep {tpl})) (rep_code {REPN[seq[j].value]}))) = {rlit(float(ja))} /\\ "
+                f"snd (snd (set_representation_gen INFV m1 {fvs} (t_a {tpl}) (rep_code (t_rep {tpl})) (rep_code {REPN[seq[j].value]}))) = rep_code {REPN[jr.value]})")
+        arith = ("unfold canonical_of, to_canonical, of_canonical, I11, Tails; cbn [t_a t_rep fst snd]; rewrite ?H1, ?H2, ?H3; "
+                 "repeat split; first [reflexivity | field]")
+        proof = (f"intros m1 H1 H2 H3. split. "
+                 f"- rewrite run_gen_state by {V}. cbn [filter valid_repb rep_eqb orb negb last t_rep]. {arith}. "
+                 f"- rewrite set_representation_gen_spec by {V}. cbn [valid_repb rep_eqb orb negb fst snd]. "
+                 f"rewrite ?set_representation_rep, ?set_representation_a by {V}. {arith}.")
+        cases.append(Case(("conv-refused", k), stmt, proof, dict(a=a0, rep=r0.name, seq=[x.name for x in seq], I11=i11, tails=[tl_, tr_], fv=fv,
+                                                                  impl=[[bool(g[0]), float(g[1]), g[2].name] for g in got])))
+        res.count(("coq-conv-refused", a0, r0.name, tuple(x.name for x in seq), i11, tl_, tr_, fv), nontrivial=any(g[0] for g in got),
+                  kind="coq set_representation sequences with refused requests (generated transformer)")
+    return cases
+
+
 def _coq(res, rng):
     cfg = _cfg(res)
     cases = _kappa_cases(res, rng, cfg["coq_per_group"]) + _cx_cases(res, rng, cfg["coq_per_group"]) + _drift_cases(res, rng, cfg["coq_per_group"]) + \
-        _conversion_cases(res, rng, cfg["coq_per_group"]) + _sampler_cases(res, rng, min(10, max(2, cfg["coq_per_group"] // 2))) + \
+        _conversion_cases(res, rng, cfg["coq_per_group"]) + _refused_conversion_cases(res, random.Random(res.seed + 12), cfg["coq_per_group"]) + _sampler_cases(res, rng, min(10, max(2, cfg["coq_per_group"] // 2))) + \
         _constants_cases(res, rng, min(10, max(2, cfg["coq_per_group"] // 2)))
     nfiles, failed = L.run_cases(PROP, "cases", HEADER, cases, jobs=12, timeout=600)
     res.case_lemmas += len(cases)
@@ -1065,6 +1230,7 @@ def correspond(res):
     warnings.filterwarnings("ignore")
     rng = random.Random(res.seed)
     _oracle(res, rng)
+    _refused_conversions_oracle(res, random.Random(res.seed + 11))
     _coq(res, random.Random(res.seed + 1))
 
 
@@ -1073,6 +1239,7 @@ def search(res):
     QUICK.update(n_random=8)
     try:
         _oracle(res, random.Random(res.seed + 7))
+        _refused_conversions_oracle(res, random.Random(res.seed + 17))
     finally:
         QUICK.clear()
         QUICK.update(saved)
@@ -1118,11 +1285,25 @@ def replay(path):
         fwd = data["spot"] * math.exp((data["r"] - data["d"]) * T)
         print("forward by the direct-simulation drift:", got, " S0 exp((r-d)T):", fwd)
         return 0 if _close(got, fwd, rel=1e-8) else 1
+    if k == "conversion-refused":
+        from rpylib.model.levymodel.levymodel import LevyTriplet, LevyRepresentation as LR
+        if data["source"] == "dyadic":
+            nu = StubMeasure(data["I11"], 0.0, data["tails"], data["fv"])
+            t = LevyTriplet(sigma=0.0, nu=nu, a=data["a"], representation=LR[data["rep"]])
+        else:
+            t = L.build(data["source"], data["params"])[0].levy_triplet
+        a, rep = float(t.a), t.representation
+        for i, (r_, g) in enumerate(zip([LR[x] for x in data["seq"]], _stepwise(t, [LR[x] for x in data["seq"]]))):
+            want, a, rep = _ref_step(data["fv"], data["I11"], data["tails"], a, rep, r_)
+            print(f"request #{i + 1} {r_.name}: raised={g[0]} a={g[1]!r} representation={g[2].name}   expected raised={want} a={a!r} representation={rep.name}")
+            if g[0] != want or g[2] != rep or abs(float(g[1]) - a) > 1e-11 * max(1.0, abs(a), abs(data["tails"])):
+                return 1
+        return 0
     print("replay: re-run ./check C10 to re-evaluate this class of input")
     return 1
 
 
-LEVEL_TEXT = ("Proof (partial): 30 Coq statements (5 of them plain algebra, named _algebra). The four drift conversions of LevyTriplet are re-translated from levymodel.py on every run and "
+LEVEL_TEXT = ("Proof (partial): 33 Coq statements (5 of them plain algebra, named _algebra). The four drift conversions of LevyTriplet are re-translated from levymodel.py on every run and "
               "set_representation is proved path-independent and reversible for all triplets, measures and sequences of representations admissible "
               "for the measure (ZERO needs finite variation; the code raises otherwise). "
               "On the real axis (kappa(s) = psi(-i s)) the generated pure-jump exponents, cumulants and simulation drifts of HEM, Merton, VG, "
@@ -1142,7 +1323,10 @@ LEVEL_TEXT = ("Proof (partial): 30 Coq statements (5 of them plain algebra, name
               "exponent at every REAL argument u is proved to be the Levy-Khintchine integral (real part: cos(ux)-1, imaginary part: sin(ux), both half-lines, "
               "improper integrals) of the generated density plus -sigma^2 u^2/2 + i a u; the real-axis model kappa is proved to be the generated complex code "
               "at -1j*s for HEM and VG; for VG at real u only the closed form (ln|z|, atan) of the generated code and its real part in the constants of the Levy density are proved (partial); Merton / CGMY at complex "
-              "arguments: oracle only.")
+              "arguments: oracle only. set_representation is additionally regenerated as a state transformer with its exception paths and statement order: "
+              "a refused conversion (ValueError) is proved to leave (a, representation) unchanged, the generated method is proved equal to the hand model on "
+              "admissible requests, and path independence / reversibility / preservation of the first cumulant are proved for sequences that contain "
+              "refused requests caught by the caller; the oracle drives such sequences on one triplet object and compares the state after every request.")
 LEVEL_NOTE = ("Trusted: Coq kernel, standard real/classical axioms, py2coq and its complex-pair plug-in py2coq_c10cx (fail-closed; typing float / complex "
               "as Python's numeric tower), Base/CxPair.v's reading of numpy's complex log / integer power, the hand model kappa of levy_exponent on the real "
               "axis for Merton / CGMY (HEM / VG: proved equal to the generated complex code), interval case lemmas on levy_exponent(-1j*s) and "
